@@ -10,3 +10,135 @@ package db
 //@   attr inline
 //@ func View
 //@   attr inline
+
+// ---- transaction protocol as ghost state (C12). These are contracts of the db interfaces: assumed for callers,
+// justified for the leveldb implementation by C19. in_tx: a write transaction is open; tx_count: write
+// transactions begun; write_failed: some write of the open transaction returned an error (sticky until the
+// transaction ends).
+//@ ghost in_tx bool
+//@ ghost tx_count int
+//@ ghost write_failed bool
+
+//@ func (DB).BeginTx
+//@   attr trusted
+//@   requires no-nested-tx: !in_tx
+//@   modifies in_tx, tx_count, write_failed
+//@   ensures tx_count == old(tx_count) + 1 && !write_failed
+//@   ensures err == nil ==> in_tx && result0 != nil
+//@   ensures err != nil ==> !in_tx
+
+//@ func (DB).BeginReadTx
+//@   attr trusted
+//@   modifies nothing
+//@   ensures err == nil ==> result0 != nil
+
+//@ func (DBTransaction).Commit
+//@   attr trusted
+//@   requires tx-open: in_tx
+//@   requires no-swallowed-write-error: !write_failed
+//@   modifies in_tx
+//@   ensures !in_tx
+
+//@ func (DBTransaction).Rollback
+//@   attr trusted
+//@   modifies in_tx, write_failed
+//@   ensures !in_tx && !write_failed
+
+//@ func (ReadTransaction).Rollback
+//@   attr trusted
+//@   modifies nothing
+
+//@ func (DBTransaction).TopLevelBucket
+//@   attr trusted
+//@   modifies nothing
+//@ func (DBTransaction).FetchBucket
+//@   attr trusted
+//@   modifies nothing
+//@ func (DBTransaction).BucketNames
+//@   attr trusted
+//@   modifies nothing
+//@ func (ReadTransaction).TopLevelBucket
+//@   attr trusted
+//@   modifies nothing
+//@ func (ReadTransaction).FetchBucket
+//@   attr trusted
+//@   modifies nothing
+//@ func (ReadTransaction).BucketNames
+//@   attr trusted
+//@   modifies nothing
+
+//@ func (DBTransaction).CreateTopLevelBucket
+//@   attr trusted
+//@   requires write-in-tx: in_tx
+//@   modifies write_failed
+//@   ensures (err != nil || old(write_failed)) == write_failed
+//@   ensures err == nil ==> result0 != nil
+//@ func (DBTransaction).DeleteTopLevelBucket
+//@   attr trusted
+//@   requires write-in-tx: in_tx
+//@   modifies write_failed
+//@   ensures (err != nil || old(write_failed)) == write_failed
+
+//@ func (Bucket).NewBucket
+//@   attr trusted
+//@   requires write-in-tx: in_tx
+//@   modifies write_failed
+//@   ensures (err != nil || old(write_failed)) == write_failed
+//@   ensures err == nil ==> result0 != nil
+//@ func (Bucket).DeleteBucket
+//@   attr trusted
+//@   requires write-in-tx: in_tx
+//@   modifies write_failed
+//@   ensures (err != nil || old(write_failed)) == write_failed
+//@ func (Bucket).Put
+//@   attr trusted
+//@   requires write-in-tx: in_tx
+//@   modifies write_failed
+//@   ensures (err != nil || old(write_failed)) == write_failed
+//@ func (Bucket).Delete
+//@   attr trusted
+//@   requires write-in-tx: in_tx
+//@   modifies write_failed
+//@   ensures (err != nil || old(write_failed)) == write_failed
+//@ func (Bucket).Clear
+//@   attr trusted
+//@   requires write-in-tx: in_tx
+//@   modifies write_failed
+//@   ensures (err != nil || old(write_failed)) == write_failed
+
+//@ func (Bucket).Bucket
+//@   attr trusted
+//@   modifies nothing
+//@ func (Bucket).BucketNames
+//@   attr trusted
+//@   modifies nothing
+//@ func (Bucket).Get
+//@   attr trusted
+//@   modifies nothing
+//@ func (Bucket).GetByPrefix
+//@   attr trusted
+//@   modifies nothing
+//@ func (Bucket).GetBucketMeta
+//@   attr trusted
+//@   modifies nothing
+//@   ensures result != nil
+//@ func (BucketMeta).Paths
+//@   attr trusted
+//@   modifies nothing
+//@ func (BucketMeta).Name
+//@   attr trusted
+//@   modifies nothing
+//@ func (BucketMeta).Depth
+//@   attr trusted
+//@   modifies nothing
+
+//@ func GetOrCreateBucket
+//@   requires tx-entry: in_tx
+//@   modifies write_failed
+//@   ensures tx-propagate: write_failed ==> (old(write_failed) || err != nil)
+//@   ensures err == nil ==> b != nil
+//@ func GetOrCreateTopLevelBucket
+//@   requires tx-entry: in_tx
+//@   modifies write_failed
+//@   ensures tx-propagate: write_failed ==> (old(write_failed) || err != nil)
+//@   ensures err == nil ==> b != nil
